@@ -98,13 +98,14 @@ def rule(op, a, b, negpow=True):
 
 def same_value(got, want):
     """R8-aware value comparison: shape and entries (relative 1e-9)."""
-    g, w = np.asarray(got), np.asarray(want)
-    if g.size == 1 and w.size == 1:
-        g, w = g.reshape(()), w.reshape(())
-    if g.shape != w.shape:
-        return False
-    scale = max(1.0, float(np.max(np.abs(w))) if w.size else 1.0)
-    return bool(np.all(np.abs(g - w) <= 1e-9 * scale))
+    with np.errstate(all='ignore'):
+        g, w = np.asarray(got), np.asarray(want)
+        if g.size == 1 and w.size == 1:
+            g, w = g.reshape(()), w.reshape(())
+        if g.shape != w.shape:
+            return False
+        scale = max(1.0, float(np.max(np.abs(w))) if w.size else 1.0)
+        return bool(np.all(np.abs(g - w) <= 1e-9 * scale))
 
 
 def classify(x):
@@ -118,7 +119,7 @@ def operands(rng):
     """Pool of plain operands covering the lattice."""
     pool = []
     # (tiny non-zero scalars are not the scalar zero: the 'adding zero is allowed' exemption is exact)
-    for s in (0, 0.0, 0j, 2, -3, 1.5, -0.25, 2 + 1j, 1j, 1, 3.0, 1e-15, 0.1 + 0.2 - 0.3, -1e-300, 1e-20j):
+    for s in (0, 0.0, 0j, 2, -3, 1.5, -0.25, 2 + 1j, 1j, 1, 3.0, 1e-15, 0.1 + 0.2 - 0.3, -1e-300, 1e-20j, 1e-200):
         pool.append(s)
     for n in (2, 3, 4):
         pool.append(np.array([rng.choice([-2., -1., 0.5, 1., 2., 3.]) for _ in range(n)]))
@@ -136,6 +137,9 @@ def operands(rng):
     pool.append(np.array([[1 + 1j, 2.], [0.5j, 1.]]))
     pool.append(np.zeros((2, 2)))
     pool.append(np.zeros(3))
+    # entries whose products / quotients underflow (quietly, to zero or a denormal): still ordinary values
+    pool.append(np.array([1e-200, 1.0, -1e-250]))
+    pool.append(np.array([[1e-200, 0.], [2.0, 1e-180]]))
     for shp in ((2, 2, 2), (2, 3, 2), (3, 3, 3), (1, 2, 2)):
         pool.append(np.arange(1., 1. + np.prod(shp)).reshape(shp))
     return pool
@@ -159,7 +163,8 @@ def student_facing(exc):
 
 def judge(ctx, route, op, a, b, out, la, lb, la0, lb0, negpow=True, raw=True, extra=None):
     """Compare one outcome with the table."""
-    exp = rule(op, a, b, negpow)
+    with np.errstate(all='ignore'):      # the oracle's own numpy arithmetic must not depend on the library's process-wide error state
+        exp = rule(op, a, b, negpow)
     ca, cb = classify(a), classify(b)
     wit = {'route': route, 'op': op, 'a': a, 'b': b, 'classes': [ca, cb], 'expected': exp[0],
            'why': exp[1] if exp[0] == 'error' else None, 'outcome': out.brief()}
@@ -323,13 +328,13 @@ def run_strings(ctx):
                 variables.update({'A': to_lib(a), 'B': to_lib(b)})
                 s = 'A%sB' % op
                 r_ = rng.random()
-                if r_ < 0.3:
+                if r_ < 0.35:
                     # scalar operands carried as numpy scalar types (what numpy functions and samplers hand back)
                     for nm_, val_ in (('A', a), ('B', b)):
                         if is_scalar(val_):
                             variables[nm_] = {int: np.int64, float: np.float64, complex: np.complex128}[type(val_)](val_)
                             ctx.count('numpy_scalar_operands')
-                elif r_ < 0.45 and op != '^':
+                elif r_ < 0.7 and op != '^':
                     # ... or produced by a function call inside the string
                     s = '%s%s%s' % ('(A+sin(0))' if is_scalar(a) else 'A', op, '(B+sin(0))' if is_scalar(b) else 'B')
                     ctx.count('numpy_scalar_operands')
